@@ -276,6 +276,9 @@ func (p *parser) check() error {
 	prefixNotation := !p.isInfixNotation()
 
 	last := len(p.tokens) - 1
+	if last < 0 {
+		return p.invalidExprErr(0)
+	}
 	if prefixNotation &&
 		(p.tokens[0].typ != lParen || p.tokens[last].typ != rParen) {
 		return p.parenUnmatchedErr(0)
